@@ -284,6 +284,18 @@ def runAt (cfg : Cfg) (n i : Nat) (ops : List Op) : State := run cfg (proj n i o
 configure when no setter is called: `max_size` 100, no TTL, LRU -/
 def builderDefaults : Cfg := { max := 100, ttl := none, policy := .lru }
 
+/-- `Duration::MAX` (`u64::MAX` s + 999 999 999 ns) in whole clock ticks of `tickNs` nanoseconds: an age of
+`a` ticks exceeds `Duration::MAX` exactly when `a > durMaxTicks tickNs`. No clock reading is that large
+(`Instant` cannot even represent `inserted_at + Duration::MAX`): the idiomatic "never expires". -/
+def durMaxTicks (tickNs : Nat) : Nat := (2 ^ 64 * 1000000000 - 1) / tickNs
+
+/-- The header word `ttl=…`: absent = no TTL; `ttl=max` = `Duration::MAX`; `ttl=<n>` = n ticks, for EVERY
+natural n (zero, and values far beyond anything `Instant + ttl` can represent, alike). -/
+def parseTtl (tickNs : Nat) (v : Option String) : Option Nat :=
+  match v with
+  | none => none
+  | some w => if w = "max" then some (durMaxTicks tickNs) else w.toNat?
+
 /-! ## line protocol
 
 The LFU victim among ties is not observable when it is chosen (the store is private and every
@@ -296,6 +308,7 @@ explains the implementation (`choice-not-allowed`). All surviving states agree o
 LRU and FIFO the set is always a singleton and the annotation is not used.
 
 Header: `max` / `policy` / `ttl` absent = the builder's documented default (`builderDefaults`);
+`ttl=max` is `Duration::MAX`, `ttl=<n>` n ticks for any natural n (`parseTtl`);
 `shared=0|1|2` and `nsvc=<n>` give the number of stores (`nStores`); `listen=1`: the layer value has
 `on_hit` / `on_miss` / `on_eviction` listeners, `probe events` prints how often each has fired (the
 counters are kept by the driver, `XState`; the `Eviction` event follows `lib.rs`: the store was full
@@ -445,7 +458,7 @@ def xstep (x : XState) (ws : List String) : XState × List Ev :=
 def machine : Machine where
   σ := XState
   init kv :=
-    let cfg : Cfg := { max := kv.nat "max" builderDefaults.max, ttl := kv.optNat "ttl",
+    let cfg : Cfg := { max := kv.nat "max" builderDefaults.max, ttl := parseTtl (if kv.str "tick" "ms" = "us" then 1000 else 1000000) (kv.get "ttl"),
                        policy := match kv.get "policy" with | some p => parsePolicy p | none => builderDefaults.policy }
     let shared := kv.nat "shared" 0 != 0
     let n := nStores shared (kv.nat "nsvc" (if shared then 2 else 1))
